@@ -100,7 +100,7 @@ def main():
     elif fmt == "hyperv":
         from dissect.hypervisor.descriptor.hyperv import HyperVFile
 
-        root = os.path.join(os.path.dirname(os.path.dirname(os.path.abspath(importlib.import_module("dissect.hypervisor").__file__))), "tests", "data")
+        root = os.path.join(os.path.dirname(os.path.dirname(os.path.dirname(os.path.abspath(importlib.import_module("dissect.hypervisor").__file__)))), "tests", "data")
         for name in ("test.vmcx", "test.VMRS"):
             p = os.path.join(root, name)
             if os.path.exists(p):
